@@ -6,3 +6,7 @@ pub mod rollreg;
 pub mod trace;
 pub use proto::*;
 pub use rng::*;
+
+/// the null of a float series at position `i`: NaNs of both signs (x86-64 yields the sign-bit-set NaN for 0.0 / 0.0, the
+/// literal f64::NAN is the positive one); a predicate or comparison that only handles one of them is a defect
+pub fn nan_at(i: usize) -> f64 { if i % 2 == 0 { f64::NAN } else { -f64::NAN } }
